@@ -117,7 +117,7 @@ def cases(tier, seed):
 def main():
     tier, seed = suite.tier_seed()
     return suite.run_property(
-        "C12", cases(tier, seed),
+        "C12", cases(tier, seed), rejection_is_violation=True,
         technique="SMT-based translation validation: the instantiated template and the literal-substituted text are both proved equivalent to one source-level specification for all witnesses (z3 QF_UFBV); parameters() and instantiate() verdicts compared on enumerated argument maps",
         functions=["lib.rs: TemplateProgram::instantiate / parameters (through ast::Program::{parameters,compile} and Arguments::is_consistent, the calls instantiate makes)",
                    "compile.rs: Scope::get_argument, SingleExpression::compile (Parameter)", "ast.rs: insert_parameter", "witness.rs: Arguments::is_consistent (accept / refuse verdicts on enumerated maps)"],
